@@ -156,6 +156,24 @@ func vh_C17_accepted() {
 		return
 	}
 	vxReach("accepted")
+	if scheme == SchemeTypeSTUN || scheme == SchemeTypeSTUNS {
+		// RFC 7064: no query.  The query is what follows the first '?' up to a '#'.
+		q, hash := -1, len(s)
+		for i := len(s) - 1; i >= 0; i-- {
+			if s[i] == '#' {
+				hash = i
+			}
+		}
+		for i := hash - 1; i >= 0; i-- {
+			if s[i] == '?' {
+				q = i
+			}
+		}
+		// (a query that consists of separators only, "?" or "?&", has no parameters and is tolerated)
+		for i := 0; i < len(s); i++ {
+			vxAssert(vxImplies(q >= 0 && i > q && i < hash, s[i] == '&'), "an accepted stun/stuns URI carries no query parameters")
+		}
+	}
 	vxAssert(u.Scheme == scheme, "accepted URI has the written scheme")
 	vxAssert(u.Host != "", "accepted URI has a non-empty host")
 	vxAssert(u.Port >= 0 && u.Port <= 65535, "accepted URI has a port within 0..65535")
